@@ -120,6 +120,8 @@ def evo_events():
     return [
         # tips given in descending order with individual volumes: must not be emitted with swapped volumes
         EA("Q", ["B01", "C01"], [2, 1], [7.5, 30]),
+        EA("Q", ["C01", "B01"], [2, 1], [30, 7.5]),  # wells and tips in the same descending order
+        ED("Q", ["C01", "A01"], [3, 1], [2.5, 30]),
         EA("P", ["A01", "B01"], [3, 1], [70.0, 7.5]),
         ED("Q", ["A01", "C01"], [4, 2], [30, 2.5]),
         EA("P", ["A01", "B01"], [1, 2], [30, 7.5]),
